@@ -328,6 +328,12 @@ func (f *FieldCopyToGenerator) genListOrMap() *j.Statement {
 					)
 				}
 
+				if f.IsMap {
+					// The map of an earlier state may hold keys which are not in the source any more,
+					// and assigning into it would keep them: start from an empty map.
+					g.Id("c.Elems").Op("=").Add(mk)
+				}
+
 				// for k, a := range obj.List
 				g.For(j.List(j.Id("k"), j.Id("a"))).Op(":=").Range().Id(fieldName).BlockFunc(func(g *j.Group) {
 					if (f.Kind == PrimitiveListKind) || (f.Kind == PrimitiveMapKind) {
@@ -347,6 +353,13 @@ func (f *FieldCopyToGenerator) genListOrMap() *j.Statement {
 
 			if f.IsRepeated {
 				// A nil source list must not leave the elements of an earlier state behind
+				g.If(j.Id(fieldName)).Op("==").Nil().Block(
+					j.Id("c.Elems").Op("=").Add(mk),
+				)
+			}
+
+			if f.IsMap {
+				// Same for a nil source map
 				g.If(j.Id(fieldName)).Op("==").Nil().Block(
 					j.Id("c.Elems").Op("=").Add(mk),
 				)
